@@ -6,7 +6,8 @@ import Rare.Model.C01C05TraceOrder
 The batcher logs, through the `verifTrace` hooks (build tag `verif`), `src.open` (`so`), `src.err` (`se`),
 `sync.begin` (`sb`, with batchSize and autoFlush), `flush` (`fl`: about to send a batch from inside the loop),
 `flush.eof` (`fe`: about to send the remainder), `sent` (`st`: that send returned), `sync.end` (`sn`),
-`src.close` (`sc`, after `wg.Done()`), `c.close` (`cc`: about to close the channel).  The harness, which is
+`src.close` (`sc`: on entry of `stopFileReading`, which the exit block runs BEFORE `wg.Done()` – a "log, then act"
+event for the `finish` transition), `c.close` (`cc`: about to close the channel).  The harness, which is
 the consumer, logs `br src start n` after every receive and `bd` when it sees the closed channel.
 
 Two things are checked of such a log.
@@ -223,7 +224,7 @@ def exampleLog : List Ev :=
   let mk (g : Nat) (k : String) (src a b : Nat) : Ev := ⟨g, k, src, a, b, []⟩
   [mk 0 "so" 0 0 0, mk 1 "so" 1 0 0, mk 0 "sb" 0 2 250, mk 1 "sb" 1 2 250,
    mk 0 "fl" 0 1 2, mk 1 "fl" 1 1 1, mk 0 "st" 0 1 2, mk 2 "br" 0 1 2, mk 1 "st" 1 1 1, mk 2 "br" 1 1 1,
-   mk 1 "sn" 1 0 0, mk 1 "sc" 1 0 0, mk 0 "fe" 0 3 1, mk 0 "st" 0 3 1, mk 0 "sn" 0 0 0, mk 3 "cc" noSrc 0 0,
-   mk 2 "br" 0 3 1, mk 0 "sc" 0 0 0, mk 2 "bd" noSrc 0 0]
+   mk 1 "sn" 1 0 0, mk 1 "sc" 1 0 0, mk 0 "fe" 0 3 1, mk 0 "st" 0 3 1, mk 0 "sn" 0 0 0, mk 0 "sc" 0 0 0,
+   mk 3 "cc" noSrc 0 0, mk 2 "br" 0 3 1, mk 2 "bd" noSrc 0 0]
 
 end Rare.C15.Trace
